@@ -41,7 +41,7 @@ pub fn def() -> PropDef {
         quick_runs: 30000,
         thorough_runs: 2_000_000,
         level: "exploration",
-        rule: "a live daemon; index%4: 3 = the application drops a connected daemon without wait() while the peer (idle / after k requests / mid-message) keeps its end open: daemon thread and every worker must terminate and the peer must read EOF; 0 = 1-3 shutdown-caller tasks (each calling once or twice) start after 0..40 scheduler steps, with the owner either already blocked in wait() or calling it after they returned, while a raw peer follows a drawn plan (idle / k complete requests / stopped after b bytes of a request, b enumerated over every offset of GET_VRING_BASE by index / closed at offset b / closed with a reply pending); after they returned wait() must return Ok, the peer must read EOF and a second start() on the same listener must serve a request; 1 = no shutdown request: the peer disconnects at offset b (enumerated) or with a reply pending, shuts down only its sending direction at offset b and reads on, or sends a malformed request: wait() must return Err, the peer must read EOF after a request error (malformed request, half-close), before wait() is called; 2 = serve(): must return Ok for clean and partial-header disconnects and raise every worker's exit event; always: dropping the daemon ends all worker tasks; forced switches at the daemon-thread and shutdown hold points; hang = the scheduler's deadlock detector; non-trivial = a scheduling choice existed",
+        rule: "a live daemon; index%4: 3 = the application drops a connected daemon without wait() while the peer (idle / after k requests / mid-message) keeps its end open: daemon thread and every worker must terminate and the peer must read EOF; 0 = 1-3 shutdown-caller tasks (each calling once or twice) start after 0..40 scheduler steps, with the owner either already blocked in wait() or calling it after they returned, while a raw peer follows a drawn plan (idle / k complete requests / stopped after b bytes of a request, b enumerated over every offset of GET_VRING_BASE by index / closed at offset b / closed with a reply pending); after they returned wait() must return Ok, the peer must read EOF and a second start() on the same listener must serve a request; 1 = no shutdown request: the peer disconnects at offset b (enumerated) or with a reply pending, shuts down only its sending direction at offset b and reads on, or sends a malformed request: wait() must return Err, the peer must read EOF after a request error (malformed request, half-close), before wait() is called; 2 = serve(): must return Ok for clean and partial-header disconnects, Err for a disconnect inside a request body, and raise every worker's exit event; always: dropping the daemon ends all worker tasks; forced switches at the daemon-thread and shutdown hold points; hang = the scheduler's deadlock detector; non-trivial = a scheduling choice existed",
         assumptions: ASSUME,
         real: REAL_D,
         stubs: STUB_D,
@@ -269,7 +269,10 @@ fn run_v<V: VringT<GM<()>> + Clone + Send + Sync + 'static>(sim: &Sim, cfg: &Run
                 viol("serve_disconnect_not_ok", format!("cut{}", cut.min(1)), format!("serve() returned {e} for a peer that disconnected after {cut} bytes of a request"));
             }
         } else if r.is_ok() {
-            sim.probe("serve_ok_for_body_truncation");
+            // only clean and partial-header disconnects are mapped to success
+            viol("serve_ok_for_body_truncation", String::new(), format!("serve() returned Ok although the peer disconnected after {cut} bytes of a request, i.e. inside its body"));
+        } else {
+            sim.probe("serve_err_for_body_truncation");
         }
         // every worker's exit event must have been raised: the workers terminate
         sim.settle();
